@@ -34,6 +34,9 @@ type cliCase struct {
 	HasRef  bool     `json:"ref_sequence"`            // stats --per-sequences: --ref-sequence given
 	Profile []string `json:"count_profile,omitempty"` // --count-profile: rows the profile file is counted from (per-sequences, gaps --unique, mutations --unique)
 	Only    string   `json:"only,omitempty"`          // stats char --only
+	Layout  cli.Layout `json:"layout"`   // presentation of a FASTA input
+	OutFile bool       `json:"out_file"` // consensus / diff: -o <file> instead of standard output
+	Stale   bool       `json:"stale"`    // the output file exists before, with longer stale content
 	Cmd     string   `json:"cmd"`
 	IG      bool     `json:"ignore_gaps"`
 	IN      bool     `json:"ignore_n"`
@@ -131,6 +134,13 @@ func genCLI(t *rapid.T) cliCase {
 		}
 	}
 	c.IG, c.IN = rapid.Bool().Draw(t, "ig"), rapid.Bool().Draw(t, "in")
+	if !c.Phylip {
+		c.Layout = cli.DrawLayout(t)
+	}
+	if c.Cmd == "consensus" || c.Cmd == "diff-counts" {
+		c.OutFile = rapid.Bool().Draw(t, "outfile")
+		c.Stale = c.OutFile && rapid.Bool().Draw(t, "stale")
+	}
 	c.HasRef = rapid.Bool().Draw(t, "hasref")
 	switch c.Cmd {
 	case "per-sequences", "gaps-unique", "mutations-unique":
@@ -294,7 +304,10 @@ func TestCLI(t *testing.T) {
 		if c.Phylip {
 			in = cli.TempFile(dir, ".phy", phylip(alis))
 		} else {
-			in = cli.TempFile(dir, ".fa", cli.Fasta(a.Rows))
+			in = cli.TempFile(dir, ".fa", cli.FastaLayout(a.Rows, c.Layout))
+			if !c.Layout.Plain() {
+				o.Class("input-layout=not-plain")
+			}
 		}
 		defer os.Remove(in)
 		var args []string
@@ -374,7 +387,27 @@ func TestCLI(t *testing.T) {
 				args = append(args, "--one-line", "--no-block")
 			}
 		}
+		outPath := in + ".out"
+		defer os.Remove(outPath)
+		if c.OutFile {
+			args = append(args, "-o", outPath)
+			o.Class("output=file")
+			if c.Stale {
+				cli.StaleFile(outPath, 60) // an existing file must be replaced
+				o.Class("stale-output-file")
+			}
+		}
 		r := cli.Run("", args...)
+		if c.OutFile && r.Exit == 0 {
+			b, e := os.ReadFile(outPath)
+			if e != nil {
+				return o, fmt.Errorf("goalign %v: the output file was not written: %v", args, e)
+			}
+			if strings.TrimSpace(r.Stdout) != "" {
+				return o, fmt.Errorf("goalign %v: output on stdout although -o was given: %q", args, r.Stdout)
+			}
+			r.Stdout = string(b)
+		}
 		o.Class("cmd=%s", c.Cmd)
 		o.Class("alignments-in-file=%d", len(alis))
 		if c.Phylip {
